@@ -2,6 +2,7 @@ import json, os
 import vlib, apidrive
 
 ASSUME = [
+    'non-leader tier (TestVerifC10Follower): a node that is not the leader and knows no leader (raft states Follower and Candidate) has applied a log; the retry of every session\'s last message is answered 200 by that node from its own marker and nothing is appended',
     'single-node network in-process: real hashicorp/raft (in-memory transport), real FSM, real LevelDB raftlog/irclog, FileSnapshotStore, real api.HTTP handlers via httptest',
     'the retry arrives after the first copy has been applied on the node that handles it (property wording); client message ids are non-zero and distinct per message',
     'a replica fed by the log = the node restarted (replays the durable log); a replica fed by a snapshot = forced raft snapshot followed by a restart',
@@ -20,7 +21,10 @@ def run(tier):
     if tier == 'thorough':
         # the legacy JSON encoding (messages, store values, snapshots) at the quick depth, then protobuf one deeper
         variants = [('json encoding', {'VERIF_ENCODING': 'json', 'VERIF_DEPTH': '4'}), ('json store converted to protobuf at the first restart', {'VERIF_ENCODING': 'json-upgrade', 'VERIF_DEPTH': '4'}), ('', {})]
-    apidrive.run_seq('C10', tier, 'TestVerifC10', ASSUME, RULE, variants=variants)
+    # a retry that reaches a non-leader node which knows no leader (both raft states): answered from the node's own marker
+    binary = apidrive.build()
+    rf = vlib.run_workers(binary, 'TestVerifC10Follower', 1, env={'GOMAXPROCS': '2'})
+    apidrive.run_seq('C10', tier, 'TestVerifC10', ASSUME, RULE, variants=variants, pre_results=rf)
 
 def replay(path):
     import subprocess
